@@ -1,6 +1,6 @@
 """C19 — kernel property: see DESIGN.md section 5 and harness/kprop.py.
 
-Six parts (all run by `run`):
+Seven parts (all run by `run`):
  1. kernel correspondence + views oracle (harness/kprop.py, koracle.c19_views) on the feature templates of kgen;
  2. `meta_views`: class-graph edit histories, every view against Model/MetaViews.v and an independent closure;
  3. `subtree_scenarios` (implementation only, PRNG stream 'C19:subtrees'): random class hierarchies in which
@@ -45,6 +45,17 @@ Six parts (all run by `run`):
     attribute syntax, eGet(name) and eGet(feature object) must return ONE object, twice in a row, before any write,
     after in-place mutation through any one path (seen through the two others), after assignment through any write
     path (attribute, eSet by name, eSet by feature) and after del.
+ 7. `assign_scenarios` (PRNG stream 'C19:assign'): three EQUAL worlds (same classes, two holders, seven elements,
+    same content, every object observed) receive the same assignment, each through one write route: attribute
+    syntax, eSet(name), eSet(feature object).  Many-valued attributes and references (unique or not, containment
+    or not, opposite single/many or none) get whole-collection assignments: a fresh list, tuple, generator,
+    iterator, reversed(own collection), a filter over the own collection, the own collection itself (read by name or
+    by feature), another holder's collection, a list built from the own content, a list with a duplicate, with a
+    non-conforming element (in the middle, in front), the empty list, a non-iterable; single-valued features get a
+    conforming value, the value they hold, None, a non-conforming value, a value held elsewhere.  After each
+    assignment the outcome (exception class), the content with order, eIsSet (by name and by feature), the
+    containers / opposite ends / eContents, and the notifications received by the observers must be the same on
+    the three routes; an assignment refused on all routes must have changed nothing.
 """
 from harness import kgen, kprop
 
@@ -69,7 +80,7 @@ def replay(ctx, rep):
         return 0
     if case.get('scenario'):
         return common.scenario_replay(ctx, rep, {'subtrees': subtree_scenarios, 'generic': generic_scenarios,
-                                                 'containers': container_scenarios})
+                                                 'containers': container_scenarios, 'assign': assign_scenarios})
     r = krun.Run(case, ['C19']).run()
     for s in r.steps:
         print(s['op'], '->', s['outcome'])
@@ -1488,6 +1499,214 @@ def container_scenarios(ctx, out):
     out.coverage['container_sample'] = sample
 
 
+# ---------------- 7. one assignment through the three write routes, on equal objects ----------------
+ROUTES = ['attr', 'eSet-name', 'eSet-feature']
+MANY_VALUES = ['fresh-list', 'tuple', 'generator', 'reversed-own', 'filter-own', 'own-collection', 'own-collection-by-feature',
+               'other-collection', 'list-of-own', 'list-with-duplicate', 'list-with-bad-element', 'bad-element-first', 'empty-list',
+               'iterator-of-fresh', 'not-iterable']
+ONE_VALUES = ['conforming', 'conforming', 'same-again', 'none', 'non-conforming', 'held-elsewhere']
+
+
+def assign_scenarios(ctx, out):
+    """see the module docstring, part 7"""
+    from harness import common
+    common.use_repo()
+    from pyecore import ecore as E
+    from pyecore.notification import EObserver
+    rng = common.rng_for(ctx.seed, 'C19:assign')
+    n = 700 if ctx.tier != 'thorough' else 12000
+    st = {'cases': 0, 'assignments': 0, 'refused': 0, 'by_value': {}, 'shapes': set(), 'notifications_compared': 0}
+    sample = None
+
+    class World:
+        """holders h0 h1 (class H), elements e0.. (class Item, or strings), everything observed"""
+        def __init__(self, spec):
+            self.spec = spec
+            Item = E.EClass('Item')
+            Other = E.EClass('Other')
+            H = E.EClass('H')
+            many = spec['many']
+            if spec['attr']:
+                f = E.EAttribute('f', E.EString, upper=-1 if many else 1, unique=spec['unique'])
+            else:
+                f = E.EReference('f', Item, upper=-1 if many else 1, unique=spec['unique'], containment=spec['containment'])
+                if spec['opposite']:
+                    back = E.EReference('back', H, upper=-1 if spec['opposite'] == 'many' else 1, eOpposite=f)
+                    Item.eStructuralFeatures.append(back)
+            H.eStructuralFeatures.append(f)
+            self.f, self.Item, self.Other = f, Item, Other
+            self.h = [H(), H()]
+            self.e = [f's{i}' for i in range(7)] if spec['attr'] else [Item() for _ in range(7)]
+            self.bad = 7 if spec['attr'] else Other()
+            self.log = []
+            for o in self.h + ([] if spec['attr'] else self.e + [self.bad]):
+                EObserver(o, notifyChanged=self._note)
+            if many:
+                self.h[0].f.extend(self.e[0:3])
+                self.h[1].f.extend(self.e[3:5])
+            else:
+                self.h[0].f = self.e[0]
+                self.h[1].f = self.e[3]
+            del self.log[:]
+
+        def name(self, v):
+            if isinstance(v, (list, tuple)) or hasattr(v, '__iter__') and not isinstance(v, str):
+                return [self.name(x) for x in v]
+            for i, o in enumerate(self.h):
+                if v is o:
+                    return f'h{i}'
+            if not self.spec['attr']:
+                for i, o in enumerate(self.e):
+                    if v is o:
+                        return f'e{i}'
+            if v is self.bad:
+                return 'bad'
+            return None if v is None else v if isinstance(v, (str, int, bool)) else type(v).__name__
+
+        def _note(self, nt):
+            self.log.append([nt.kind.name, getattr(nt.feature, 'name', None), self.name(nt.notifier), self.name(nt.new), self.name(nt.old)])
+
+        def value(self, kind, par):
+            h, e, f = self.h[0], self.e, self.f
+            if kind == 'fresh-list':
+                return [e[i] for i in par]
+            if kind == 'tuple':
+                return tuple(e[i] for i in par)
+            if kind == 'generator':
+                return (e[i] for i in par)
+            if kind == 'iterator-of-fresh':
+                return iter([e[i] for i in par])
+            if kind == 'reversed-own':
+                return reversed(h.eGet('f'))
+            if kind == 'filter-own':
+                return (x for k, x in enumerate(h.eGet('f')) if k % 2 == par[0] % 2)
+            if kind == 'own-collection':
+                return h.f
+            if kind == 'own-collection-by-feature':
+                return h.eGet(f)
+            if kind == 'list-of-own':
+                return list(h.f) + [e[par[0]]]
+            if kind == 'other-collection':
+                return self.h[1].eGet(f)
+            if kind == 'list-with-duplicate':
+                return [e[par[0]], e[par[1]], e[par[0]]]
+            if kind == 'list-with-bad-element':
+                return [e[par[0]], self.bad, e[par[1]]]
+            if kind == 'bad-element-first':
+                return [self.bad, e[par[0]]]
+            if kind == 'empty-list':
+                return []
+            if kind == 'not-iterable':
+                return e[par[0]] if not self.spec['attr'] else 5
+            # single-valued
+            if kind == 'conforming':
+                return e[par[0]]
+            if kind == 'same-again':
+                return h.f
+            if kind == 'none':
+                return None
+            if kind == 'non-conforming':
+                return self.bad
+            if kind == 'held-elsewhere':
+                return self.h[1].f
+            raise AssertionError(kind)
+
+        def assign(self, route, kind, par):
+            v = self.value(kind, par)
+            try:
+                if route == 'attr':
+                    setattr(self.h[0], 'f', v)
+                elif route == 'eSet-name':
+                    self.h[0].eSet('f', v)
+                else:
+                    self.h[0].eSet(self.f, v)
+                return 'ok'
+            except Exception as e:  # noqa
+                return type(e).__name__
+
+        def observe(self):
+            d = {'content': {}, 'isset': {}, 'links': {}}
+            for i, h in enumerate(self.h):
+                v = h.f
+                d['content'][f'h{i}'] = self.name(list(v)) if self.spec['many'] else self.name(v)
+                d['isset'][f'h{i}'] = [bool(h.eIsSet('f')), bool(h.eIsSet(self.f))]
+                d['links'][f'h{i}.eContents'] = sorted(map(str, self.name(list(h.eContents))))
+            if not self.spec['attr']:
+                for i, x in enumerate(self.e + [self.bad]):
+                    nm = f'e{i}' if i < len(self.e) else 'bad'
+                    d['links'][nm + '.eContainer'] = self.name(x.eContainer())
+                    if self.spec['opposite'] and x is not self.bad:
+                        b = x.back
+                        d['links'][nm + '.back'] = self.name(list(b)) if self.spec['opposite'] == 'many' else self.name(b)
+            d['notifications'] = [list(x) for x in self.log]
+            del self.log[:]
+            return d
+
+    for it in range(n):
+        attr = rng.random() < 0.3
+        spec = {'attr': attr, 'many': rng.random() < 0.75, 'unique': rng.random() < 0.65,
+                'containment': (not attr) and rng.random() < 0.45, 'opposite': None}
+        if not attr and rng.random() < 0.45:
+            spec['opposite'] = 'one' if spec['containment'] else rng.choice(['one', 'many'])
+            spec['unique'] = True
+        if not spec['many']:
+            spec['unique'] = True
+        st['shapes'].add(json_key(spec))
+        worlds = {r: World(spec) for r in ROUTES}
+        hist = [['case', it, dict(spec)]]
+        for step in range(rng.randrange(1, 5)):
+            kind = rng.choice(MANY_VALUES if spec['many'] else ONE_VALUES)
+            par = [rng.randrange(7) for _ in range(rng.randrange(1, 5))] + [rng.randrange(7)]
+            hist.append(['assign', kind, par])
+            res = {}
+            for r in ROUTES:
+                before = worlds[r].observe()
+                outcome = worlds[r].assign(r, kind, par)
+                res[r] = dict(worlds[r].observe(), outcome=outcome, before=before)
+            st['assignments'] += 1
+            st['by_value'][kind] = st['by_value'].get(kind, 0) + 1
+            st['notifications_compared'] += len(res['attr']['notifications'])
+            case = {'scenario': 'assign', 'seed': ctx.seed, 'tier': ctx.tier, 'history': [list(h) for h in hist]}
+            bad = None
+            for key in ('outcome', 'content', 'isset', 'links', 'notifications'):
+                vals = {r: res[r][key] for r in ROUTES}
+                if not (vals['attr'] == vals['eSet-name'] == vals['eSet-feature']):
+                    odd = next(r for r in ROUTES if [vals[q] == vals[r] for q in ROUTES].count(True) == 1) \
+                        if len({json_key(v) for v in vals.values()}) == 2 else 'all three'
+                    out.fail({'property': 'C19', 'clause': 'write-routes', 'scenario': 'assign', 'differs': key, 'many': spec['many']},
+                             f'the same assignment ({kind} {par}) on equal objects ({spec}): {key} differs between the routes '
+                             f'(odd one out: {odd}): ' + '; '.join(f'{r}: {vals[r]}' for r in ROUTES)
+                             + f' [content before: {res["attr"]["before"]["content"]}]', case)
+                    bad = key
+                    break
+            if bad:
+                break
+            if res['attr']['outcome'] != 'ok':
+                st['refused'] += 1
+                ch = [k for k in ('content', 'isset', 'links') if res['attr'][k] != res['attr']['before'][k]]
+                if ch or res['attr']['notifications']:
+                    out.fail({'property': 'C19', 'clause': 'refused-assignment-changes', 'scenario': 'assign', 'many': spec['many']},
+                             f'the assignment ({kind} {par}, {spec}) raised {res["attr"]["outcome"]} on every route but changed {ch} '
+                             f'(notifications {res["attr"]["notifications"]}): before {res["attr"]["before"]["content"]}, '
+                             f'after {res["attr"]["content"]}', case)
+                    break
+        st['cases'] += 1
+        if sample is None and len(hist) > 3:
+            sample = {'scenario': 'assign', 'history': [list(h) for h in hist]}
+    out.coverage['assign_cases'] = st['cases']
+    out.coverage['assign_assignments_through_three_routes'] = st['assignments']
+    out.coverage['assign_refused_on_all_routes'] = st['refused']
+    out.coverage['assign_by_value_kind'] = st['by_value']
+    out.coverage['assign_feature_shapes'] = len(st['shapes'])
+    out.coverage['assign_notifications_compared'] = st['notifications_compared']
+    out.coverage['assign_sample'] = sample
+
+
+def json_key(v):
+    import json
+    return json.dumps(v, sort_keys=True, default=str)
+
+
 _run3 = run
 
 
@@ -1497,3 +1716,4 @@ def run(ctx, out):   # noqa: F811
     meta_clash_scenarios(ctx, out)
     generic_scenarios(ctx, out)
     container_scenarios(ctx, out)
+    assign_scenarios(ctx, out)
